@@ -26,14 +26,15 @@ def build_axis(ax):
     from physt.binnings import ExponentialBinning, FixedWidthBinning, NumpyBinning, StaticBinning
 
     form, ps = ax["form"], ax["pairs"]
+    edt = ax.get("edge_dtype")  # edges handed over as an array of a narrow type (the values are representable in it)
     if form == "edges":
-        return np.array([p[0] for p in ps] + [ps[-1][1]])
+        return np.array([p[0] for p in ps] + [ps[-1][1]], dtype=edt)
     if form == "pairs":
-        return np.array(ps)
+        return np.array(ps, dtype=edt)
     if form == "static":
-        return StaticBinning(np.array(ps), includes_right_edge=ax.get("incl", True))
+        return StaticBinning(np.array(ps, dtype=edt), includes_right_edge=ax.get("incl", True))
     if form == "numpy":
-        return NumpyBinning(np.array([p[0] for p in ps] + [ps[-1][1]]), includes_right_edge=ax.get("incl", True))
+        return NumpyBinning(np.array([p[0] for p in ps] + [ps[-1][1]], dtype=edt), includes_right_edge=ax.get("incl", True))
     if form == "fixed":
         return FixedWidthBinning(bin_width=ax["w"], bin_count=ax["n"], bin_times_min=ax["k0"], bin_shift=ax.get("shift", 0.0),
                                  includes_right_edge=ax.get("incl", False) and not ax.get("adaptive", False),
